@@ -34,8 +34,10 @@ Findings on the unchanged tree (families computed by `_family` from the failing 
   tip-absent-from-repository-<op>: after set_last_revision_info(n, X) with X absent from the repository
     (unchecked on both sides) reads / generate_revision_history answer with different results or error classes.
   gather-stats-null-revision-committers: gather_stats(b"null:", committers=True) lacks 'committers' remotely.
-  config-old-api-empty-value-get: get_config().set_user_option(name, "") then get_config_stack().get(name)
-    is None locally and "" through the server.
+  config-old-api-write-unseen-by-local-stack: get_config().set_user_option(name, v) then
+    get_config_stack().get(name) on the same branch object is None locally and v through the server.
+  append-revisions-only-error-untranslated: a push / pull that violates append_revisions_only raises
+    AppendRevisionsOnlyViolation locally and UnknownErrorFromSmartServer through the server.
 Error classes are compared modulo EQUIV_ERRORS (the server verb documents that it reports an absent
 revision as NoSuchRevision where the local code raises GhostRevisionsHaveNoRevno).
 
@@ -892,11 +894,16 @@ def _family(script, i, what, l, r, before=None):
         # gather_stats(b"null:", committers=True): the null revision travels as b"" -> None and the server
         # then leaves out the committers count
         return "gather-stats-null-revision-committers"
-    if (op[0] == "conf_get" and what == "result" and l is None and r == ""
-            and any(o[0] == "conf_set_old" and o[1] == op[1] and o[2] == "" for o in script[:i])):
-        # get_config().set_user_option(name, "") followed by get_config_stack().get(name):
-        # None locally, "" through the smart server
-        return "config-old-api-empty-value-get"
+    if op[0] == "conf_get" and what == "result" and l is None:
+        last = [o for o in script[:i] if o[0] in ("conf_set", "conf_set_old") and o[1] == op[1]]
+        if last and last[-1][0] == "conf_set_old" and r == last[-1][2]:
+            # get_config().set_user_option(name, v) followed by get_config_stack().get(name) on the SAME
+            # branch object: the local object's cached config store does not see the old-API write (None),
+            # the remote object re-reads the file (v)
+            return "config-old-api-write-unseen-by-local-stack"
+    if what == "result" and l == "E:AppendRevisionsOnlyViolation" and r == "E:UnknownErrorFromSmartServer":
+        # append_revisions_only = True on the target: the server does not translate the error
+        return "append-revisions-only-error-untranslated"
     return None
 
 
